@@ -68,10 +68,14 @@ func VerifHarness_C16_refuse() {
 	})
 	d := &dag.DAG{Name: "d", Location: "/dags/d.yaml", SMTP: &dag.SMTPConfig{}, Steps: []dag.Step{{Name: "s", ExecutorConfig: dag.ExecutorConfig{Type: "verif16"}}},
 		HandlerOn: dag.HandlerOn{Exit: &dag.Step{Name: "onExit", ExecutorConfig: dag.ExecutorConfig{Type: "verif16"}}}}
-	sock := vfChoice("socket", 3) // 0 no listener, 1 another run answers, 2 peer hangs
+	sock := vfChoice("socket", 4) // 0 no socket file, 1 another run answers, 2 peer hangs, 3 stale socket file of a killed run
 	otherStatus := scheduler.Status(vfRange("otherStatus", 1, 4))
 	other := &model.Status{Name: "d", RequestID: "first-run", Status: otherStatus}
-	vfSock(d.SockAddr(), sock != 0, sock == 2, vfJSON(other))
+	if sock == 3 {
+		vfSockStale(d.SockAddr())
+	} else {
+		vfSock(d.SockAddr(), sock != 0, sock == 2, vfJSON(other))
+	}
 	lg := logger.NewLogger(logger.NewLoggerArgs{Quiet: true})
 	stores := vfStores16{}
 	cl := client.New(stores, "", "", lg)
